@@ -93,6 +93,17 @@ func multisig(m int, priv []*keys.PrivateKey, pubs keys.PublicKeys) neotest.Sign
 	return neotest.NewMultiSigner(accs...)
 }
 
+// Multisig returns an m-of-len(priv) multisig signer over arbitrary keys.
+func Multisig(m int, priv []*keys.PrivateKey) neotest.Signer {
+	p := append([]*keys.PrivateKey{}, priv...)
+	sort.Slice(p, func(i, j int) bool { return p[i].PublicKey().Cmp(p[j].PublicKey()) < 0 })
+	pubs := make(keys.PublicKeys, len(p))
+	for i := range p {
+		pubs[i] = p[i].PublicKey()
+	}
+	return multisig(m, p, pubs)
+}
+
 // MultisigOf returns an m-of-committee multisig signer.
 func (c *Chain) MultisigOf(m int) neotest.Signer { return multisig(m, c.Priv, c.Pubs) }
 
